@@ -1,7 +1,10 @@
 (* REGENERATED from src/mxlpy/parallel.py (_pickle_save, _load_or_run, _pickle_load, _pickle_name, Cache,
    parallelise) and src/mxlpy/scan.py by harness/c19.py; do not edit.  An unrecognised shape yields
-   SaveUnknown / false / NameUnknown / CoUnknown / SnUnknown, which breaks C19_facts_pinned / C19_object_facts_pinned. *)
-From CacheFS Require Import CacheKeys CacheFS CacheCodec CacheObject.
-Definition gen_cache_facts : cache_facts := mkCacheFacts SaveTempReplace true true NameReprEsc.
+   SaveUnknown / false / NameUnknown / CoUnknown / SnUnknown / LkUnknown / MkUnknown, which breaks C19_facts_pinned /
+   C19_object_facts_pinned / C19_life_facts_pinned. *)
+From CacheFS Require Import CacheKeys CacheFS CacheCodec CacheObject CacheLife.
+Definition gen_cache_facts : cache_facts := mkCacheFacts SaveReplaceOpen true true NameReprEsc.
 Definition gen_cache_object : cache_object_kind := CoStateless.
 Definition gen_save_name : save_name_kind := SnFinal.
+Definition gen_lookup : lookup_kind := LkExists.
+Definition gen_mkdir : mkdir_kind := MkAtRun.
